@@ -2541,6 +2541,11 @@ class Region(_IRNode):
         assert dest != self
         if insert_index is None:
             insert_index = len(dest.blocks)
+        elif not 0 <= insert_index <= len(dest.blocks):
+            raise IndexError(
+                f"insert_index {insert_index} is out of range for a region with "
+                f"{len(dest.blocks)} blocks"
+            )
         if value_mapper is None:
             value_mapper = {}
         if block_mapper is None:
